@@ -407,7 +407,7 @@ class Interp:
                         return Fl(r, Fraction(math.isqrt(num), math.isqrt(den)))
                 return sym.from_native(r, inexact=True)
             s = self._ack("sqrt", x, False)
-            self.sqrt_facts.append((x, s))
+            self.sqrt_facts.append((x, s)); sym._SQRT_OF[s.get_id()] = (s, sym.zr(x))
             return s
 
         out = emap(f, a)
@@ -433,7 +433,7 @@ class Interp:
                 return sym.pow_int(x, int(y.ex), odt)
             if isinstance(y.ex, Fraction) and y.ex == Fraction(1, 2) and not isinstance(x, Cx):
                 s = self._ack("sqrt", x, False)
-                self.sqrt_facts.append((x, s))
+                self.sqrt_facts.append((x, s)); sym._SQRT_OF[s.get_id()] = (s, sym.zr(x))
                 return s
             raise EncodingError(f"pow with exponent {y}")
 
@@ -489,7 +489,7 @@ class Interp:
                     return sym.from_native(abs(complex(x.re.nat, x.im.nat)), inexact=True)
                 m2 = sym.cabs2(x, odt)
                 s = self._ack("sqrt", m2, False)
-                self.sqrt_facts.append((m2, s))
+                self.sqrt_facts.append((m2, s)); sym._SQRT_OF[s.get_id()] = (s, sym.zr(m2))
                 return s
 
             out = emap(f, a)
